@@ -29,6 +29,21 @@ IKeys == { <<1, 1>>, <<1, 2>>, <<1>>, <<1, 1, 1>>, <<2>>, <<1, 16>> }
 IVals == { Rep(25, 1), Rep(26, 2), Rep(27, 3), Rep(28, 4), <<>>, <<7>>, Rep(10, 6) }
 IPrefixes == { <<1>>, <<1, 1>>, <<>> }
 
+(* alphabet "slots": keys that END at a child slot of a branch whose child continues (a value-holding branch with a partial  *)
+(* key, a leaf with a partial key): reads of an absent key that is a strict byte prefix of stored keys, next to a sibling   *)
+(* that splits the branch in the middle of the key's last byte (seed C02e)                                                  *)
+GKeys == { <<18>>, <<18, 1>>, <<18, 1, 1>>, <<19>>, <<18, 1, 1, 1>>, <<18, 17>> }
+GVals == { <<1>>, <<2>> }
+GPrefixes == { <<18>>, <<18, 1>>, <<1>> }
+ReadKinds == {"Put", "Delete", "Get", "NextKey", "KeysWithPrefix"}
+
+(* alphabet "wide": inlined values (state version 0 inlines every value) whose LENGTH PREFIX changes width: 63/64 bytes     *)
+(* (one- to two-byte compact length) and 16383/16384 bytes (two- to four-byte), in a root leaf, a child leaf and a branch    *)
+(* value (seed C01e)                                                                                                        *)
+WKeys == { <<1>>, <<1, 1>>, <<2>> }
+WVals == { <<1>>, Rep(63, 1), Rep(64, 2), Rep(16383, 3), Rep(16384, 4), Rep(20000, 5) }
+WPrefixes == { <<1>> }
+
 (* alphabet "nested": value-less branches on three nesting levels (keys only at the leaves), limits that run out inside  *)
 (* the last grand-child of the cleared region (seed C02d)                                                               *)
 NKeys == { <<17, 17>>, <<17, 33>>, <<17, 34, 17>>, <<17, 34, 33>>, <<17, 34, 34>>, <<17, 34, 33, 1>>, <<34>> }
